@@ -20,4 +20,4 @@ for f in sorted(glob.glob(os.path.join(ROOT, "harness", "c[0-9][0-9]", "check.js
 # properties deliberately not claimed, with reasons (anything else missing from CHECKS is "not built yet")
 NOT_APPLICABLE = {}
 # build-tag-guarded hook commits in /repo
-HOOK_COMMITS = []
+HOOK_COMMITS = ["a81e5d931632b4aeac0af9b3520d782ace770992"]
